@@ -1180,6 +1180,11 @@ func (c *Ctx) ruleGlobals(rule string) {
 		default:
 			_ = u
 		}
+		if !immutable && seamTarget(g) != nil {
+			// a func variable only the package initialiser assigns (a seam tests can replace): read-only for the library
+			r.Ok(rule, construct+":seam", p.Pos(g.Pos()), "func variable assigned once, by the package initialiser, to "+funcShort(seamTarget(g))+": never written by the library")
+			continue
+		}
 		if !immutable && readOnlyGlobal(g, us2instrs(us)) {
 			r.Ok(rule, construct+":read-only", p.Pos(g.Pos()), "only read (lookups, indexing, ranging, comparisons): never written, never handed out")
 			continue
@@ -8088,13 +8093,62 @@ func (c *Ctx) ruleNilHandle(rule string) {
 		return false
 	}
 	n := 0
-	for _, f := range p.FuncsIn(PkgRoot) {
-		for _, ci := range callsTo(f, func(nm string, cc *ssa.CallCommon) bool { return unsafe[nm] }) {
-			args := ci.Common().Args
-			if len(args) == 0 {
-				continue
+	// when the handle is not a concrete *os.File but an interface (a seam for tests), a nil handle is a nil
+	// interface: EVERY method call on it, and every call that is handed it to write to, dereferences nil
+	ifaceHandle := false
+	if fsT := p.Named(PkgRoot, "FileSink"); fsT != nil {
+		if st, ok := fsT.Underlying().(*types.Struct); ok {
+			for i := 0; i < st.NumFields(); i++ {
+				if st.Field(i).Name() == "f" && types.IsInterface(st.Field(i).Type()) {
+					ifaceHandle = true
+				}
 			}
-			if _, ok := isHandleLoad(args[0]); !ok {
+		}
+	}
+	for _, f := range p.FuncsIn(PkgRoot) {
+		for _, ci := range callsTo(f, func(nm string, cc *ssa.CallCommon) bool {
+			if unsafe[nm] {
+				return true
+			}
+			if !ifaceHandle {
+				return false
+			}
+			if cc.IsInvoke() {
+				_, ok := isHandleLoad(cc.Value)
+				return ok
+			}
+			for _, a := range cc.Args {
+				v := a
+				if mi, ok := v.(*ssa.MakeInterface); ok {
+					v = mi.X
+				}
+				if ch, ok := v.(*ssa.ChangeInterface); ok {
+					v = ch.X
+				}
+				if _, ok := isHandleLoad(v); ok {
+					return true
+				}
+			}
+			return false
+		}) {
+			args := ci.Common().Args
+			if ci.Common().IsInvoke() {
+				args = append([]ssa.Value{ci.Common().Value}, args...)
+			}
+			hit := false
+			for _, a := range args {
+				v := a
+				if mi, ok := v.(*ssa.MakeInterface); ok {
+					v = mi.X
+				}
+				if ch, ok := v.(*ssa.ChangeInterface); ok {
+					v = ch.X
+				}
+				if _, ok := isHandleLoad(v); ok {
+					hit = true
+				}
+			}
+			if !hit {
 				continue
 			}
 			n++
@@ -8206,4 +8260,115 @@ func ensuresFieldNonNil(fn *ssa.Function, field int) bool {
 		}
 	})
 	return ok
+}
+
+// ruleNoWaitUnderLock (C12.wait <fn>:wait-under-lock): nothing in package eventlogger WAITS for
+// other goroutines while the registry lock may be held — no WaitGroup.Wait, Cond.Wait, time.Sleep,
+// channel receive / send or blocking select. What is waited for runs node code, and node code may
+// call back into the Broker: its RLock queues behind the held (or a queued) write lock, so the
+// wait never ends and every later Broker call blocks for good (a drain of in-flight events in
+// RemovePipelineAndNodes, say).
+func (c *Ctx) ruleNoWaitUnderLock(rule, class string) {
+	p, r := c.P, c.R
+	may := c.MayLocks()
+	n, bad := 0, 0
+	for _, f := range p.FuncsIn(PkgRoot) {
+		eachInstr(f, func(in ssa.Instruction) {
+			what := ""
+			switch x := in.(type) {
+			case *ssa.Call:
+				switch calleeName(&x.Call) {
+				case "(*sync.WaitGroup).Wait", "(*sync.Cond).Wait", "time.Sleep":
+					what = calleeName(&x.Call)
+				}
+			case *ssa.Select:
+				if x.Blocking {
+					what = "blocking select"
+				}
+			case *ssa.UnOp:
+				if x.Op == token.ARROW {
+					what = "channel receive"
+				}
+			case *ssa.Send:
+				what = "channel send"
+			}
+			if what == "" {
+				return
+			}
+			n++
+			if _, held := may.At(in)[class]; held {
+				bad++
+				r.Check(false, rule, p.ShortFn(f)+":wait-under-lock:"+what, p.InstrPos(in), "", what+" may run while "+class+" is held: what it waits for runs node code, and a node that calls back into the Broker queues behind the lock — neither returns, and the Broker stays locked for every later call")
+			}
+		})
+	}
+	if bad == 0 {
+		r.Check(n >= 2, rule, "wait-under-lock", "", fmt.Sprintf("%d waiting operations in package eventlogger, none with %s possibly held", n, class), "fewer than 2 waiting operations found (the collector's select and the launcher's Wait expected)")
+	}
+}
+
+// ruleKeyWriters (C16.atomic <fn>:who-may-rotate): the key material in force — Filter.Wrapper,
+// HmacSalt, HmacInfo — is replaced only by a rotation: Rotate and the rotation arm of Process.
+// No other method (Reopen, a reset hook, a lazy "restore") stores into them: "every event
+// started later uses the new wrapper, salt and info" holds only while nothing else can put an
+// older value back.
+func (c *Ctx) ruleKeyWriters(rule string) {
+	p, r := c.P, c.R
+	n, bad := 0, 0
+	for _, f := range p.FuncsIn(PkgEncrypt) {
+		eachInstr(f, func(in ssa.Instruction) {
+			st, ok := in.(*ssa.Store)
+			if !ok {
+				return
+			}
+			fa, ok := st.Addr.(*ssa.FieldAddr)
+			if !ok || typeShort(fa.X.Type()) != "encrypt.Filter" || isFresh(fa.X) {
+				return
+			}
+			nm := fieldName(fa)
+			if nm != "Wrapper" && nm != "HmacSalt" && nm != "HmacInfo" {
+				return
+			}
+			n++
+			root := f
+			for root.Parent() != nil {
+				root = root.Parent()
+			}
+			okWho := root.Signature.Recv() != nil && typeShort(root.Signature.Recv().Type()) == "encrypt.Filter" && (root.Name() == "Rotate" || root.Name() == "Process")
+			if !okWho {
+				bad++
+				r.Check(false, rule, p.ShortFn(f)+":who-may-rotate:"+nm, p.InstrPos(in), "", "Filter."+nm+" is assigned by "+p.ShortFn(f)+", which is neither Rotate nor the rotation arm of Process: key material that a rotation replaced can be put back (or changed) outside a rotation, so events started after the rotation are no longer protected with the new wrapper, salt and info")
+			}
+		})
+	}
+	if bad == 0 {
+		r.Check(n >= 6, rule, "who-may-rotate", "", fmt.Sprintf("%d stores of Wrapper / HmacSalt / HmacInfo, all in Rotate or Process", n), fmt.Sprintf("only %d stores of the key material found (6 confirmed by hand: three in Rotate, three in the rotation arm)", n))
+	}
+}
+
+// ruleUnwrapOnce (C10.exacttype <fn>:unwrap-once): the walkers of package encrypt take a value
+// out of its interface and its pointer ONE level at a time, and remember what they took off in a
+// flag (fPtr) so that the replacement they store has the type of what it replaces. No Elem() is
+// applied to a loop-carried value (for { v = v.Elem() }): behind an arbitrary depth of pointers
+// and interfaces one flag cannot say what to rebuild, and a **string or *interface{} entry is
+// forwarded as *string — or SetMapIndex panics on a typed map.
+func (c *Ctx) ruleUnwrapOnce(rule string) {
+	p, r := c.P, c.R
+	n, bad := 0, 0
+	for _, f := range p.FuncsIn(PkgEncrypt) {
+		for _, ci := range callsTo(f, func(nm string, cc *ssa.CallCommon) bool { return nm == "(reflect.Value).Elem" }) {
+			call, ok := ci.(*ssa.Call)
+			if !ok || len(call.Call.Args) == 0 {
+				continue
+			}
+			n++
+			if phi, isPhi := call.Call.Args[0].(*ssa.Phi); isPhi && flowsIntoPhi(call, phi) {
+				bad++
+				r.Check(false, rule, p.ShortFn(f)+":unwrap-once", p.InstrPos(call), "", "Elem() is applied to a value that is itself the result of an earlier round's Elem() (iterative unwrapping): how many pointer / interface levels were taken off is not recorded, so the replacement that is stored does not have the type of what it replaces (**string or *interface{} becomes *string; a typed map makes SetMapIndex panic)")
+			}
+		}
+	}
+	if bad == 0 {
+		r.Check(n >= 10, rule, "unwrap-once", "", fmt.Sprintf("%d Elem() calls in package encrypt, none on a loop-carried value", n), fmt.Sprintf("only %d Elem() calls found in package encrypt (>= 10 confirmed by hand)", n))
+	}
 }
